@@ -282,7 +282,7 @@ def captureTerm (T : Tables) (urlOk : List Nat → Bool) (e : End) (legacy : Boo
   | none, s, [] => .err e.cls (s.offErr [] 0)
   | some _, _, [] => .err e.cls .none       -- drainLine's error is wrapped without an offset
   | some cm, s, r :: rest =>
-    if r.1 = 0x0a then captureTerm T urlOk e legacy pos none ((s.read r).commit (r :: cm).reverse) rest
+    if r.1 = 0x0a ∨ r.1 = 0x0d then captureTerm T urlOk e legacy pos none ((s.read r).commit (r :: cm).reverse) rest
     else captureTerm T urlOk e legacy pos (some (r :: cm)) (s.read r) rest
   | none, s, r :: rest =>
     if r.1 = 0x3c then
@@ -307,7 +307,7 @@ def afterObject (T : Tables) (e : End) : Option Chunk → S → List RP → RO (
   | none, s, [] => .err e.cls (s.offErr [] 0)
   | some _, _, [] => .err e.cls .none       -- `return err` (drainLine's, unwrapped)
   | some cm, s, r :: rest =>
-    if r.1 = 0x0a then afterObject T e none ((s.read r).commit (r :: cm).reverse) rest
+    if r.1 = 0x0a ∨ r.1 = 0x0d then afterObject T e none ((s.read r).commit (r :: cm).reverse) rest
     else afterObject T e (some (r :: cm)) (s.read r) rest
   | none, s, r :: rest =>
     if r.1 = 0x2e then .ok none ((s.read r).commit [r]) rest
@@ -320,7 +320,7 @@ def expectDot (T : Tables) (e : End) : Option Chunk → S → List RP → RO Uni
   | none, s, [] => .err e.cls (s.offErr [] 0)
   | some _, _, [] => .err e.cls .none
   | some cm, s, r :: rest =>
-    if r.1 = 0x0a then expectDot T e none ((s.read r).commit (r :: cm).reverse) rest
+    if r.1 = 0x0a ∨ r.1 = 0x0d then expectDot T e none ((s.read r).commit (r :: cm).reverse) rest
     else expectDot T e (some (r :: cm)) (s.read r) rest
   | none, s, r :: rest =>
     if r.1 = 0x2e then .ok () ((s.read r).commit [r]) rest
@@ -353,7 +353,7 @@ def toEOL (T : Tables) (e : End) : Option Chunk → S → List RP → EolRes
   | none, s, [] => (match e with | .eof => .done s | .ioerr => .fail .io (s.offErr [] 0))
   | some cm, s, [] => (match e with | .eof => .done (s.commit cm.reverse) | .ioerr => .fail .io (s.offErr [] 0))
   | some cm, s, r :: rest =>
-    if r.1 = 0x0a then .start ((s.read r).commit (r :: cm).reverse) rest
+    if r.1 = 0x0a ∨ r.1 = 0x0d then .start ((s.read r).commit (r :: cm).reverse) rest
     else toEOL T e (some (r :: cm)) (s.read r) rest
   | none, s, r :: rest =>
     if r.1 = 0x23 then toEOL T e (some [r]) (s.read r) rest
@@ -370,7 +370,7 @@ def skipToStmt (T : Tables) (e : End) : Option Chunk → S → List RP → SkipR
   | none, s, [] => .ended s
   | some cm, s, [] => .ended (match e with | .eof => s.commit cm.reverse | .ioerr => s)
   | some cm, s, r :: rest =>
-    if r.1 = 0x0a then skipToStmt T e none ((s.read r).commit (r :: cm).reverse) rest
+    if r.1 = 0x0a ∨ r.1 = 0x0d then skipToStmt T e none ((s.read r).commit (r :: cm).reverse) rest
     else skipToStmt T e (some (r :: cm)) (s.read r) rest
   | none, s, r :: rest =>
     if r.1 = 0x23 then skipToStmt T e (some [r]) (s.read r) rest
